@@ -4026,7 +4026,7 @@ def bundle_readpath(P, R, L):
     R.once(grd13_find_file_compares_internal_keys, P, R, L)
     R.once(src1_iterator_sources, P, R, L)
     R.once(src2_lookup_candidates, P, R, L)
-    R.once(c14.pair5, P, R, L)
+    bundle_filter(P, R, L)
     R.once(own10_cache_partitions, P, R, L)
     R.once(own11_table_cache_key, P, R, L)
 
@@ -4043,3 +4043,29 @@ def bundle_recovery(P, R, L):
     R.once(grd12_fully_consumed_is_exact, P, R, L)
     R.once(ts1, P, R, L)
     R.once(grd6, P, R, L)
+
+
+def bundle_filter(P, R, L):
+    """a filter that wrongly answers 'no' turns a stored key into 'not in this file' for every point lookup"""
+    R.clause("FILTER", "filter bundle: PAIR-5 / PAIR-5b (population), AGR-1 (Bloom writer/reader agreement), GRD-8 (fail open), GRD-15 (policy match), GRD-7 (probe)")
+    from . import c14
+    R.once(c14.pair5, P, R, L)
+    R.once(c14.pair5b, P, R, L)
+    R.once(c14.agr1, P, R, L)
+    R.once(c14.grd8, P, R, L)
+    R.once(c14.grd15, P, R, L)
+    R.once(grd7, P, R, L)
+
+
+def bundle_no_assertion_trips(P, R, L):
+    """conditions whose violation trips an always-on assertion on the compaction thread (which then never clears the
+    scheduled flag: every waiter hangs)"""
+    R.clause("NOPANIC", "compaction-thread assertion bundle: PAIR-9 (parent inputs cover the boundary-expanded range), GRD-16 (trivial move), ROLE-5 "
+             "(version builder order), GRD-14 (non-empty manual inputs), PAIR-10 (closed builder removed), ORD-17 (manual slot)")
+    R.once(pair9_boundary_inputs, P, R, L)
+    R.once(pair9_levels, P, R, L)
+    R.once(grd16_trivial_move, P, R, L)
+    R.once(role5_version_builder, P, R, L)
+    R.once(grd14_manual_inputs, P, R, L, parts=("nonempty",))
+    R.once(pair10_builder_slot, P, R, L)
+    R.once(ord17_manual_slot, P, R, L)
